@@ -118,6 +118,11 @@ func buildState(tag, valueCls string, withContract bool, seed int64) *evState {
 			st.Update(crypto.Keccak256(k), val)
 		}
 		acc := evAccount{Nonce: big.NewInt(int64(ai) + 1), Balance: big.NewInt(1000 + int64(ai)), Storage: st.Hash(), Codehash: crypto.Keccak256Hash([]byte("code"), a.Bytes())}
+		if valueCls == "leadzero1" && (a == evContract || a == evOther) {
+			// in this world the contract holds more than 2^64 wei (the packet contract collects fees) and has a large nonce
+			acc.Balance = new(big.Int).Add(new(big.Int).Lsh(big.NewInt(1), 70), big.NewInt(int64(ai)))
+			acc.Nonce = new(big.Int).SetUint64(1<<63 + uint64(ai))
+		}
 		bz, err := rlp.EncodeToBytes(&acc)
 		must(err)
 		s.acct.Update(crypto.Keccak256(a.Bytes()), bz)
